@@ -11,3 +11,4 @@ from . import wchar          # noqa: F401
 from . import dl             # noqa: F401
 from . import errno_         # noqa: F401
 from . import compare        # noqa: F401
+from . import unpack         # noqa: F401
